@@ -42,50 +42,68 @@ def run(ctx):
 def partition_rule(ctx, d1, d2):
     prog = ctx.prog
     f = prog.func(SEP, 'partition')
+    feed, top, bottom, IDs = f.params[0], f.params[1], f.params[2], f.params[3]
     ps, _ = run_paths(f.node, max_paths=4000)
     n = 0
     bad = None
+    forced = {'top': None, 'bottom': None}
+    clamp_ok = None
     for p in ps:
         if p.raised:
             continue
         n += 1
-        mat = [e for e in p.events if e.kind in ('store', 'augstore') and re.match(r'^(top|bottom)\.(imol|mol)\[', e.target)]
+        mat = [e for e in p.events if e.kind in ('store', 'augstore') and re.match(r'^(%s|%s)\.(imol|mol)\[' % (re.escape(top), re.escape(bottom)), e.target)]
         if not mat:
             bad = 'no material stores'
             continue
         last = mat[-1]
-        if not (last.target == 'top.mol[::]' and src(last.stmt.value) == 'feed_mol - bottom.mol'):
-            bad = 'the last material store is %s = %s, not top.mol[:] = feed - bottom.mol' % (last.target, src(last.stmt.value))
-        fm = p.lin.env.get('feed_mol')
-        if fm != Form.atom('feed.mol'):
-            bad = 'feed_mol is not the feed\'s molar flow'
+        if not (last.target == '%s.mol[::]' % top and last.value == Form.atom('%s.mol' % feed) - Form.atom('%s.mol' % bottom)):
+            bad = 'the last material store is %s = %s, not top.mol[:] = feed.mol - bottom.mol' % (last.target, last.value.pretty())
+        # chemicals forced to one side
+        for side, other, flag in ((top, bottom, 'top_chemicals'), (bottom, top, 'bottom_chemicals')):
+            if implied(p.conds, lambda e, flag=flag: src(e) == flag) is True:
+                a = [e for e in mat if e.target == '%s.imol[%s]' % (side, flag)]
+                b = [e for e in mat if e.target == '%s.imol[%s]' % (other, flag)]
+                good = bool(a and b) and a[0].value == Form.atom('%s.imol[%s]' % (feed, flag)) and b[0].value.is_zero()
+                key = 'top' if side == top else 'bottom'
+                forced[key] = good if forced[key] is None else (forced[key] and good)
+        # clamp before store
+        hc = [e for e in p.events if e.kind == 'call' and e.target == 'handle_infeasible_flow_rates']
+        if hc:
+            st = [e for e in mat if e.target == '%s.imol[%s]' % (bottom, IDs) and p.events.index(e) > p.events.index(hc[0])]
+            good = bool(st) and len(hc[0].value) >= 2 and st[0].value == hc[0].value[0] and hc[0].value[1] == Form.atom('%s.imol[%s]' % (feed, IDs))
+            clamp_ok = good if clamp_ok is None else (clamp_ok and good)
+        else:
+            # a path that stores computed (non-feed) bottom flows without the clamp
+            st = [e for e in mat if e.target == '%s.imol[%s]' % (bottom, IDs) and e.value != Form.atom('%s.imol[%s]' % (feed, IDs))]
+            if st:
+                clamp_ok = False
     if bad:
         d1.fail('partition', 'complement-not-last', bad, f, f.node)
     else:
         d1.ok('partition', 'on all %d paths the last material store is top.mol[:] = feed.mol - bottom.mol (closure by complement)' % n, f)
-    # forced chemicals: (top, bottom) = (feed, 0) and (0, feed)
-    for side, other in (('top', 'bottom'), ('bottom', 'top')):
-        blk = [x for x in walk_no_nested(f.node) if isinstance(x, ast.If) and src(x.test) == side + '_chemicals']
-        okk = False
-        if blk:
-            t = ' '.join(ast.unparse(ast.Module(body=blk[0].body, type_ignores=[])).split())
-            okk = ('%s.imol[%s_chemicals] = %s_flows = feed.imol[%s_chemicals]' % (side, side, side, side)) in t \
-                and ('%s.imol[%s_chemicals] = 0' % (other, side)) in t
-        if okk:
-            d1.ok('partition', 'chemicals forced to the %s: (%s, %s) = (feed, 0)' % (side, side, other), f, blk[0])
+    for key in ('top', 'bottom'):
+        if forced[key]:
+            d1.ok('partition', 'chemicals forced to the %s are written as (feed, 0)' % key, f)
         else:
-            d1.fail('partition', 'forced-' + side, 'chemicals forced to the %s are not written as (feed, 0)' % side, f, f.node)
-    # D2 clamp before store
-    calls = [x for x in walk_no_nested(f.node) if isinstance(x, ast.Call) and src(x.func) == 'handle_infeasible_flow_rates']
-    stores = [x for x in walk_no_nested(f.node) if isinstance(x, ast.Assign) and src(x.targets[0]) == 'bottom.imol[IDs]' and src(x.value) == 'bottom_mol']
-    if calls and stores and src(calls[0].args[0]) == 'bottom_mol' and src(calls[0].args[1]) == 'mol' and calls[0].lineno < stores[0].lineno:
-        d2.ok('partition', 'bottom_mol is clamped against the feed amounts before it is stored', f, stores[0])
+            d1.fail('partition', 'forced-' + key, 'chemicals forced to the %s are not written as (feed, 0)' % key, f, f.node)
+    if clamp_ok:
+        d2.ok('partition', 'the computed bottom flows are clamped against the feed amounts before they are stored', f)
     else:
         d2.fail('partition', 'no-clamp', 'the computed bottom flows are stored without being clamped into [0, feed]', f, f.node)
     h = prog.func(SEP, 'handle_infeasible_flow_rates')
-    t = ' '.join(ast.unparse(h.node).split())
-    lo = 'infeasible_index, = np.where(mol < 0.0)' in t and 'mol[infeasible_index] = 0.0' in t
-    hi = 'infeasible_index, = np.where(mol > maxmol)' in t and 'mol[infeasible_index] = maxmol[infeasible_index]' in t
+    hp, _ = run_paths(h.node)
+    mol, mx = h.params[0], h.params[1]
+    lo = hi = False
+    ncheck = 0
+    for e in hp[0].events:
+        if e.kind == 'store' and e.target.startswith(mol + '['):
+            if e.value.is_zero() and '(%s < 0)' % mol in e.target:
+                lo = True
+            if '(%s > %s)' % (mol, mx) in e.target and e.value.pretty().startswith(mx + '[') and '(%s > %s)' % (mol, mx) in e.value.pretty():
+                hi = True
+        if e.kind == 'call' and e.target == 'check_partition_infeasibility':
+            ncheck += 1
     if lo:
         d2.ok('handle_infeasible_flow_rates', 'negative flows are set to 0', h)
     else:
@@ -94,8 +112,7 @@ def partition_rule(ctx, d1, d2):
         d2.ok('handle_infeasible_flow_rates', 'flows above the available amount are set to it', h)
     else:
         d2.fail('handle_infeasible_flow_rates', 'upper', 'flows above the feed are not clamped', h, h.node)
-    ck = [x for x in walk_no_nested(h.node) if isinstance(x, ast.Expr) and 'check_partition_infeasibility' in src(x.value)]
-    if len(ck) == 2:
+    if ncheck == 2:
         d2.ok('handle_infeasible_flow_rates', 'infeasibility is reported (strict: raise) before each clamp', h)
     else:
         d2.fail('handle_infeasible_flow_rates', 'report', 'infeasibility is not reported for both bounds', h, h.node)
@@ -215,31 +232,53 @@ def moisture_rule(ctx, d1):
 
 def wrappers_rule(ctx, d1):
     prog = ctx.prog
-    for name, rows, outs in (('vle', ("'g'", "'l'"), ('vap', 'liq')), ('lle', ('top_phase', 'bottom_phase'), ('top', 'bottom'))):
+    for name in ('vle', 'lle'):
         f = prog.func(SEP, name)
-        st = {}
-        for n in walk_no_nested(f.node):
-            if isinstance(n, ast.Assign) and isinstance(n.targets[0], ast.Subscript) and src(n.targets[0]).endswith('.mol[:]'):
-                st[src(n.targets[0].value.value)] = src(n.value)
-        okk = all(st.get(o) == 'ms.imol[%s]' % r for o, r in zip(outs, rows))
-        if okk:
-            d1.ok(name, '%s.mol[:] = ms.imol[%s] and %s.mol[:] = ms.imol[%s]: both outlets come from the two rows of the same multi-stream'
-                  % (outs[0], rows[0], outs[1], rows[1]), f)
+        feed, o1, o2 = f.params[0], f.params[1], f.params[2]
+        ps, _ = run_paths(f.node, max_paths=2000)
+        okk = True
+        why = ''
+        n = 0
+        for p in ps:
+            if p.raised:
+                continue
+            n += 1
+            st = {}
+            for e in p.events:
+                if e.kind == 'store' and e.target in ('%s.mol[::]' % o1, '%s.mol[::]' % o2):
+                    st[e.target.split('.')[0]] = e.value.pretty()
+            if set(st) != {o1, o2}:
+                okk, why = False, 'an outlet is not filled'
+                break
+            m1 = re.match(r"^(.+)\.imol\[(.+)\]$", st[o1])
+            m2 = re.match(r"^(.+)\.imol\[(.+)\]$", st[o2])
+            if not (m1 and m2 and m1.group(1) == m2.group(1)):
+                okk, why = False, 'the outlets are not filled from the phase rows of one multi-stream (%s / %s)' % (st[o1], st[o2])
+                break
+            R = m1.group(1)
+            rows = (m1.group(2), m2.group(2))
+            if rows[0] == rows[1]:
+                okk, why = False, 'both outlets receive the same phase row %s' % rows[0]
+                break
+            if name == 'vle' and rows != ("'g'", "'l'"):
+                okk, why = False, 'vapour/liquid outlets receive rows %s' % (rows,)
+                break
+            if name == 'lle' and set(rows) not in ({"'l'", "'L'"}, {'(%s.phases)[0]' % R, '(%s.phases)[1]' % R}):
+                okk, why = False, 'top/bottom outlets receive rows %s, not the two liquid phases' % (rows,)
+                break
+            # R is a copy of the feed, or the given multi-stream after copy_like(feed)
+            if R == '%s.copy()' % feed:
+                pass
+            elif any(e.kind == 'call' and e.target == '%s.copy_like' % R and e.value and e.value[0] == Form.atom(feed) for e in p.events):
+                pass
+            else:
+                okk, why = False, 'the equilibrium is not run on a copy of the feed (%s)' % R
+                break
+        if okk and n:
+            d1.ok(name, 'both outlets are filled from the two distinct phase rows of one multi-stream that holds a copy of the feed (%d paths)' % n, f)
         else:
-            d1.fail(name, 'rows', 'the outlets are not filled from the two phase rows of one multi-stream: %s' % st, f, f.node)
-        # ms is a copy of the feed (or the given multi-stream after copy_like(feed))
-        t = ' '.join(ast.unparse(f.node).split())
-        if 'ms.copy_like(feed)' in t and 'ms = feed.copy()' in t:
-            d1.ok(name, 'equilibrium runs on a copy of the feed', f)
-        else:
-            d1.fail(name, 'feed-copy', 'the equilibrium is not run on a copy of the feed', f, f.node)
+            d1.fail(name, 'rows', why or 'no normal path', f, f.node)
     f = prog.func(SEP, 'lle')
-    # phases: the two labels are distinct rows of ms (unpacked from ms.phases or swapped to ('l','L'))
-    t = ' '.join(ast.unparse(f.node).split())
-    if "top_phase, bottom_phase = ms.phases" in t and "top_phase = 'l'" in t and "bottom_phase = 'L'" in t:
-        d1.ok('lle', 'top/bottom labels are the two phases of ms (either order)', f)
-    else:
-        d1.fail('lle', 'labels', 'top and bottom labels are not the two distinct phases of the multi-stream', f, f.node)
     # efficiency mixing in D-lin
     blk = [x for x in walk_no_nested(f.node) if isinstance(x, ast.If) and src(x.test).startswith('efficiency <')]
     okk = False
@@ -271,8 +310,15 @@ def wrappers_rule(ctx, d1):
     else:
         d1.fail('lle', 'efficiency', 'the efficiency mixing does not preserve the total', f, f.node)
     g = prog.func(SEP, 'phase_split')
-    t = ' '.join(ast.unparse(g.node).split())
-    if 'if len(outlets) != len(phases): raise RuntimeError' in t and 'for i, j in zip(feed, outlets): j.copy_like(i)' in t:
+    fp, op = g.params[0], g.params[1]
+    guard = [n for n in walk_no_nested(g.node) if isinstance(n, ast.If) and isinstance(n.test, ast.Compare) and isinstance(n.test.ops[0], ast.NotEq)
+             and 'len(%s)' % op in src(n.test) and isinstance(n.body[0], ast.Raise)]
+    loop = [n for n in walk_no_nested(g.node) if isinstance(n, ast.For) and src(n.iter) == 'zip(%s, %s)' % (fp, op) and isinstance(n.target, ast.Tuple)]
+    okk = False
+    if guard and loop and guard[0].lineno < loop[0].lineno:
+        i, j = (t.id for t in loop[0].target.elts)
+        okk = len(loop[0].body) == 1 and src(loop[0].body[0]) == '%s.copy_like(%s)' % (j, i)
+    if okk:
         d1.ok('phase_split', 'after the length test each phase view of the feed is copied to its own outlet', g)
     else:
         d1.fail('phase_split', 'pairing', 'phases are not paired one-to-one with outlets after a length test', g, g.node)
@@ -281,19 +327,25 @@ def wrappers_rule(ctx, d1):
 def balance_rule(ctx, d3):
     prog = ctx.prog
     f = prog.func(SEP, 'material_balance')
+    vi = 'variable_inlets'
     loops = [n for n in walk_no_nested(f.node) if isinstance(n, ast.For) and isinstance(n.iter, ast.Call) and src(n.iter.func) == 'zip'
-             and len(n.iter.args) == 2 and src(n.iter.args[1]) == 'variable_inlets']
+             and len(n.iter.args) == 2 and src(n.iter.args[1]) == vi]
     if len(loops) != 2:
         d3.fail('material_balance', 'loops', 'expected two scaling loops over zip(factors, variable_inlets)', f, f.node)
         return
     # the matrix columns are built from the same list in the same order
-    cols = [n for n in walk_no_nested(f.node) if isinstance(n, ast.Assign) and src(n.targets[0]) == 'inlet_mols']
-    col_ok = bool(cols) and 'for s in variable_inlets' in src(cols[0].value) or any('variable_inlets' in ast.unparse(c.value) for c in cols)
+    col_ok = any(isinstance(n, ast.Assign) and any(isinstance(x, ast.comprehension) and src(x.iter) == vi for x in ast.walk(n.value))
+                 for n in walk_no_nested(f.node))
     for lp in loops:
-        fac, s = (t.id for t in lp.target.elts)
+        fac, s_ = (t.id for t in lp.target.elts)
         b = lp.body[0]
-        okk = isinstance(b, ast.Assign) and src(b.value) == '%s.mol * %s' % (s, fac) and src(b.targets[0]) in ('%s.mol[:]' % s, '%s.mol' % s)
-        if okk and col_ok:
-            d3.ok('material_balance', 'each variable inlet is multiplied by the factor solved for its own column (%s)' % src(lp.iter), f, lp)
+        okk = isinstance(b, ast.Assign) and src(b.value) == '%s.mol * %s' % (s_, fac) and src(b.targets[0]) in ('%s.mol[:]' % s_, '%s.mol' % s_)
+        # the factors are the solution of the linear system (a local bound from solver(...))
+        solvers = {t.id for n in walk_no_nested(f.node) if isinstance(n, ast.Assign) and 'np.linalg.solve' in src(n.value)
+                   for t in n.targets if isinstance(t, ast.Name)} | {'np.linalg.solve', 'np.linalg.lstsq'}
+        sol = [n for n in walk_no_nested(f.node) if isinstance(n, ast.Assign) and src(n.targets[0]) == src(lp.iter.args[0]) and isinstance(n.value, ast.Call)
+               and src(n.value.func) in solvers]
+        if okk and col_ok and sol:
+            d3.ok('material_balance', 'each variable inlet is multiplied by the factor solved for its own column', f, lp)
         else:
             d3.fail('material_balance', 'scaling', 'variable inlets are not each scaled by their own solved factor', f, lp)
